@@ -219,6 +219,74 @@ def load_known():
         return json.load(fh)
 
 
+def evaluate(mod, prop, tier, progs):
+    """run a rule module on the given facts; returns (ctx, violated results after floors)"""
+    ctx = Ctx(prop, tier, progs)
+    try:
+        mod.run(ctx)
+    except Skip:
+        pass
+    per_rule = {}
+    for r in ctx.results:
+        per_rule.setdefault(r["rule"], []).append(r)
+    for rule, n in ctx.floors.items():
+        got = len(per_rule.get(rule, []))
+        if got < n:
+            ctx.bad(rule, "%s:floor" % rule, "rule %s evaluated %d instances, floor is %d (fail closed)" % (rule, got, n), kind="floor")
+    return ctx, [r for r in ctx.results if r["status"] == "violated"]
+
+
+def run_controls(mod, prop, known_keys):
+    """Positive controls (thorough tier): every confirmed mutant stored for this property under /verif/seeded is applied to a
+    scratch copy of /repo's working tree and the rules must report a violation that is not a known finding.  The scratch
+    copy lives under $TMPDIR and is removed afterwards.  A mutant whose patch no longer applies is skipped (noted)."""
+    import glob, shutil, subprocess, fcntl, tempfile
+    out = []
+    dirs = sorted(glob.glob(os.path.join(VERIF, "seeded", prop + "-*")))
+    if not dirs:
+        return out
+    base = os.path.join(os.environ.get("TMPDIR", "/tmp"), "verif-controls")
+    os.makedirs(base, exist_ok=True)
+    lock = open(os.path.join(base, ".lock"), "w")
+    fcntl.flock(lock, fcntl.LOCK_EX)
+    scratch = os.path.join(base, "repo")
+    try:
+        for d in dirs:
+            name = os.path.basename(d)
+            patch = os.path.join(d, "patch.current.diff")
+            if not os.path.exists(patch):
+                patch = os.path.join(d, "patch.diff")
+            shutil.rmtree(scratch, ignore_errors=True)
+            os.makedirs(scratch)
+            r = subprocess.run(["rsync", "-a", "--exclude", "target", "--exclude", ".git", extract.REPO + "/", scratch + "/"], capture_output=True, text=True)
+            if r.returncode != 0:
+                out.append(dict(mutant=name, status="scratch copy failed"))
+                continue
+            r = subprocess.run(["git", "apply", "--unsafe-paths", "--directory", scratch, patch], capture_output=True, text=True, cwd=scratch)
+            if r.returncode != 0:
+                r = subprocess.run(["patch", "-p1", "-s", "-i", patch], capture_output=True, text=True, cwd=scratch)
+            if r.returncode != 0:
+                out.append(dict(mutant=name, status="patch does not apply to the current tree (skipped)"))
+                continue
+            try:
+                facts = extract.extract("K2", repo=scratch)
+            except SystemExit:
+                out.append(dict(mutant=name, status="mutated tree does not compile (skipped)"))
+                continue
+            ctx2, viol = evaluate(mod, prop, "control", {"K2": ir.load(facts)})
+            new = sorted(set(v["rule"] for v in viol if (prop, v["key"]) not in known_keys))
+            out.append(dict(mutant=name, status="detected" if new else "NOT DETECTED", rules=new[:6]))
+            try:
+                os.remove(facts)
+            except OSError:
+                pass
+    finally:
+        shutil.rmtree(scratch, ignore_errors=True)
+        fcntl.flock(lock, fcntl.LOCK_UN)
+        lock.close()
+    return out
+
+
 def run(prop, tier):
     t0 = time.time()
     seed = int(os.environ.get("VERIF_SEED", "0") or 0)
@@ -229,7 +297,7 @@ def run(prop, tier):
         return 2
     configs = ["K2"]
     if tier == "thorough":
-        configs = list(getattr(mod, "THOROUGH_CONFIGS", ["K2", "K1", "K0"]))
+        configs = list(getattr(mod, "THOROUGH_CONFIGS", ["K2"]))
     progs = {}
     for c in configs:
         progs[c] = ir.load(extract.extract(c))
@@ -287,6 +355,11 @@ def run(prop, tier):
         print("VIOLATION property=%s replay=%s" % (prop, path))
         print("  rule=%s key=%s\n  %s\n  at %s" % (v["rule"], v["key"], v["detail"], v.get("loc")))
 
+    controls = []
+    if tier == "thorough" and not os.environ.get("VERIF_NO_CONTROLS"):
+        controls = run_controls(mod, prop, known_keys)
+        for c in controls:
+            print("CONTROL %s: %s %s" % (c["mutant"], c["status"], ",".join(c.get("rules", []))))
     holds = [r for r in ctx.results if r["status"] == "holds"]
     distinct_nt = len(set(r["key"] for r in ctx.results if r.get("nontrivial")))
     info = getattr(mod, "INFO", {})
@@ -311,6 +384,7 @@ def run(prop, tier):
         "configs": configs,
         "facts": {c: os.path.basename(p.path) for c, p in progs.items()},
         "counters": ctx.counters,
+        "positive_controls": controls,
         "exhaustive": bool(info.get("exhaustive", False)),
         "notes": ctx.notes[:40],
         "instances": [dict(rule=r["rule"], key=r["key"], status=r["status"], loc=r.get("loc"),
@@ -334,7 +408,12 @@ def run(prop, tier):
     os.replace(tmp, evp)
     print("%s %s: %d rule instances, %d hold, %d known findings, %d new violations (%.1fs)" % (
         prop, tier, len(ctx.results), len(holds), len(known_hit), len(new_viol), time.time() - t0))
-    return 1 if new_viol else 0
+    if new_viol:
+        return 1
+    if any(c["status"] == "NOT DETECTED" for c in controls):
+        sys.stderr.write("INFRA-FAILURE: a positive control (seeded mutant) is no longer detected: the check cannot be trusted\n")
+        return 2
+    return 0
 
 
 def main(argv):
